@@ -120,20 +120,39 @@ theorem chainOK_perm (cs cs' : List Cls) (hp : cs.Perm cs') (hnd : (cs.map (·.n
       | none => rfl
       | some c => exact ih c.baseName
 
-theorem bodyOK_perm (p p' : Prog) (hc : p.classes.Perm p'.classes) (hf : p.functions.Perm p'.functions) (b : Body) :
+theorem required_perm (cs cs' : List Cls) (hp : cs.Perm cs') (hnd : (cs.map (·.name)).Nodup) (fuel : Nat) (n : String) :
+    required cs fuel n = required cs' fuel n := by
+  induction fuel generalizing n with
+  | zero => rfl
+  | succ f ih =>
+    simp only [required]
+    rw [find_key_perm (·.name) hp hnd n]
+    split
+    · rfl
+    · cases cs'.find? (fun c => c.name == n) with
+      | none => rfl
+      | some c => simp only; rw [ih c.baseName]
+
+theorem instantiable_perm (cs cs' : List Cls) (hp : cs.Perm cs') (hnd : (cs.map (·.name)).Nodup) (n : String) :
+    instantiable cs n = instantiable cs' n := by
+  unfold instantiable
+  rw [find_key_perm (·.name) hp hnd n, hp.length_eq, required_perm cs cs' hp hnd]
+
+theorem bodyOK_perm (p p' : Prog) (hc : p.classes.Perm p'.classes) (hf : p.functions.Perm p'.functions)
+    (hnd : (p.classes.map (·.name)).Nodup) (b : Body) :
     bodyOK p b = bodyOK p' b := by
   unfold bodyOK
   have h1 : (fun (c : String × Nat) => p.functions.any (fun g => g.name == c.1 && g.arity == c.2)) =
       (fun c => p'.functions.any (fun g => g.name == c.1 && g.arity == c.2)) := by
     funext c; exact any_perm hf _
-  have h2 : (fun (n : String) => n == "Object" || p.classes.any (fun c => c.name == n)) =
-      (fun n => n == "Object" || p'.classes.any (fun c => c.name == n)) := by
-    funext n; rw [any_perm hc]
+  have h2 : (fun (n : String) => instantiable p.classes n) = (fun n => instantiable p'.classes n) := by
+    funext n; exact instantiable_perm _ _ hc hnd n
   rw [h1, h2]
 
 /-- **C10, acceptance.**  Whether the analyser accepts the declarations — no duplicate class or function, every
 base declared, no inheritance cycle, every call naming a declared function of that arity, every `new` naming a
-declared class — does not depend on the order in which classes and functions are written. -/
+declared class that is not abstract, where abstractness is inherited down the chain until implemented — does not
+depend on the order in which classes and functions are written. -/
 theorem acceptance_order_independent (p p' : Prog) (hc : p.classes.Perm p'.classes)
     (hf : p.functions.Perm p'.functions) : accept p = accept p' := by
   unfold accept
@@ -141,26 +160,33 @@ theorem acceptance_order_independent (p p' : Prog) (hc : p.classes.Perm p'.class
     decide_eq_decide.mpr (hc.map _).nodup_iff
   have hn2 : decide ((p.functions.map (·.name)).Nodup) = decide ((p'.functions.map (·.name)).Nodup) :=
     decide_eq_decide.mpr (hf.map _).nodup_iff
-  have hb : (fun (c : Cls) => bodyOK p c.body) = (fun c => bodyOK p' c.body) := by
-    funext c; exact bodyOK_perm p p' hc hf c.body
-  have hb2 : (fun (f : Fn) => bodyOK p f.body) = (fun f => bodyOK p' f.body) := by
-    funext f; exact bodyOK_perm p p' hc hf f.body
-  rw [← hn1, ← hn2, hb, hb2, ← all_perm hc, ← all_perm hf, ← hc.length_eq]
+  rw [← hn1, ← hn2, ← hc.length_eq]
   by_cases hnd : (p.classes.map (·.name)).Nodup
-  · have hch : (fun (c : Cls) => chainOK p.classes (p.classes.length + 1) c.baseName) =
+  · have hb : (fun (c : Cls) => bodyOK p c.body) = (fun c => bodyOK p' c.body) := by
+      funext c; exact bodyOK_perm p p' hc hf hnd c.body
+    have hb2 : (fun (f : Fn) => bodyOK p f.body) = (fun f => bodyOK p' f.body) := by
+      funext f; exact bodyOK_perm p p' hc hf hnd f.body
+    have hch : (fun (c : Cls) => chainOK p.classes (p.classes.length + 1) c.baseName) =
         (fun c => chainOK p'.classes (p.classes.length + 1) c.baseName) := by
       funext c; exact chainOK_perm _ _ hc hnd _ _
-    rw [hch, ← all_perm hc]
+    rw [hb, hb2, hch, ← all_perm hc, ← all_perm hc, ← all_perm hf]
   · simp [hnd]
 
 /-- non-vacuity: accepted with a derived class and a caller written first; rejected for a cycle, a missing base,
 a wrong arity, in either order -/
-def okProg : Prog := { classes := [⟨"D", some "B", ⟨[("f", 1)], ["B"]⟩⟩, ⟨"B", none, {}⟩],
+def okProg : Prog := { classes := [{ name := "D", base := some "B", body := ⟨[("f", 1)], ["B"]⟩ }, { name := "B" }],
                        functions := [⟨"main", 0, ⟨[("f", 1)], ["D"]⟩⟩, ⟨"f", 1, {}⟩] }
 example : accept okProg = true := by decide
 example : accept { okProg with classes := okProg.classes.reverse } = true := by decide
-example : accept { classes := [⟨"A", some "B", {}⟩, ⟨"B", some "A", {}⟩] } = false := by decide
-example : accept { classes := [⟨"A", some "Z", {}⟩] } = false := by decide
+example : accept { classes := [{ name := "A", base := some "B" }, { name := "B", base := some "A" }] } = false := by decide
+example : accept { classes := [{ name := "A", base := some "Z" }] } = false := by decide
 example : accept { functions := [⟨"main", 0, ⟨[("f", 2)], []⟩⟩, ⟨"f", 1, {}⟩] } = false := by decide
+/-- an obligation passed through an intermediate class: the leaf is abstract until somebody implements it -/
+def shapes (leafImpl : List String) : List Cls :=
+  [{ name := "Square", base := some "Polygon", impls := leafImpl }, { name := "Polygon", base := some "Shape", isAbstract := true },
+   { name := "Shape", isAbstract := true, abstracts := ["area"] }]
+example : accept { classes := shapes [], functions := [⟨"main", 0, ⟨[], ["Square"]⟩⟩] } = false := by decide
+example : accept { classes := (shapes []).reverse, functions := [⟨"main", 0, ⟨[], ["Square"]⟩⟩] } = false := by decide
+example : accept { classes := shapes ["area"], functions := [⟨"main", 0, ⟨[], ["Square"]⟩⟩] } = true := by decide
 
 end BlochVerif.Props.C10
